@@ -14,10 +14,10 @@ import (
 
 // snapshotStoresOnly reads the durable state while the node is down.
 func (s *sys) snapshotStoresOnly() snap {
-	m := s.m
-	s.m = nil
+	m, e := s.m, s.eng
+	s.m, s.eng = nil, nil
 	sn := s.snapshot()
-	s.m = m
+	s.m, s.eng = m, e
 	return sn
 }
 
